@@ -34,6 +34,24 @@ type c09Func = funcGen.Func[value.Value]
 var c09FG = value.New()
 var c09Progs = map[string]c09Func{}
 
+// flaky(x) = x, except that its c09FlakyArmed-th call from now on fails (once; 0 = never): a source that fails in
+// the middle of the first materialisation of a list and works when the list is looked at again
+var c09FlakyArmed int
+
+func init() {
+	c09FG.AddStaticFunction("flaky", funcGen.Function[value.Value]{
+		Func: func(st funcGen.Stack[value.Value], cs []value.Value) (value.Value, error) {
+			if c09FlakyArmed > 0 {
+				c09FlakyArmed--
+				if c09FlakyArmed == 0 {
+					return nil, fmt.Errorf("flaky source")
+				}
+			}
+			return st.Get(0), nil
+		},
+		Args: 1, IsPure: false}.SetDescription("x", "harness: identity that can be armed to fail once"))
+}
+
 // c09Prog returns the (cached) generated function for a program without list/map constants.
 func c09Prog(src string, names ...string) c09Func {
 	key := src + "|" + strings.Join(names, ",")
@@ -184,6 +202,21 @@ type c09Handle struct {
 	store      bool // derived from a window-storing combineN
 	constOf    int
 	appended   int // number of appends with this handle as receiver
+	firstOrder string // keys of a map in the order of its first iteration through the Go API ("" for hash maps: unspecified)
+}
+
+// c09IterOrder: the key order of a map as Map.Iter yields it (before any expression has touched the value)
+func c09IterOrder(v value.Value) string {
+	m, ok := v.(value.Map)
+	if !ok {
+		return ""
+	}
+	if _, real := m.Storage().(value.RealMap); real {
+		return ""
+	}
+	var ks []string
+	m.Iter(func(k string, _ value.Value) bool { ks = append(ks, k); return true })
+	return strings.Join(ks, "\x00")
 }
 
 type c09Expect struct {
@@ -195,6 +228,7 @@ type c09Expect struct {
 
 type c09Run struct {
 	c         *Ctx
+	fmapFac   *value.MapFuncFactory[value.Int]
 	ops       []string
 	handles   []*c09Handle
 	created   []int // per op: index of the handle it created, or -1
@@ -272,6 +306,7 @@ func (r *c09Run) newHandle(v value.Value, prov string, store bool) int {
 	h := &c09Handle{v: v, prov: prov, store: store, constOf: -1, midx: r.modelPool}
 	_, h.isMap = v.(value.Map)
 	h.firstCanon, h.hasReal, h.depth = c09Canon(v)
+	h.firstOrder = c09IterOrder(v)
 	h.allInt = !h.isMap && c09IsAllInt(h.firstCanon)
 	h.n = c09Count(h.firstCanon, h.isMap)
 	if strings.Contains(h.firstCanon, "!C") {
@@ -311,6 +346,12 @@ func (r *c09Run) observeAll(op string, full bool) map[int]string {
 			}
 			r.violation(r.sigFor(h, op), fmt.Sprintf("handle h%d (created by %s) showed %s and shows %s after %q", i, h.prov, h.firstCanon, canon, op),
 				map[string]any{"handle": i, "first": h.firstCanon, "now": canon, "after_op": op})
+		}
+		if r.viol == nil && h.firstOrder != "" && !h.hasReal {
+			if now := c09IterOrder(h.v); now != h.firstOrder {
+				r.violation(r.sigFor(h, op), fmt.Sprintf("the entries of map h%d (created by %s) were iterated in the order %q and are iterated in the order %q after %q", i, h.prov,
+					strings.ReplaceAll(h.firstOrder, "\x00", ","), strings.ReplaceAll(now, "\x00", ","), op), map[string]any{"handle": i, "after_op": op})
+			}
 		}
 		if r.viol != nil {
 			return obs // a changed value may even be cyclic: no further calls into the library
@@ -825,6 +866,66 @@ func (r *c09Run) exec(op string) bool {
 		recv = a.h
 		run("a0.get(a1)", a, c09Arg{v: value.String(w[2]), h: -1})
 		model = []string{"mget " + a.model + " " + w[2]}
+	case "flk":
+		// a lazy list over a source that can be armed to fail (identity otherwise); the model sees map id
+		if !need(2) {
+			return false
+		}
+		a := A(2)
+		recv = a.h
+		if w[1] == "number" {
+			run("a0.number((n,e)->flaky(e))", a)
+		} else {
+			run("a0.map(e->flaky(e))", a)
+		}
+		model = []string{"map id " + a.model}
+	case "flkeval":
+		// the first materialisation fails in the middle (third element), the failure is caught; nothing may be left behind
+		if !need(1) {
+			return false
+		}
+		a := A(1)
+		recv = a.h
+		c09FlakyArmed = 3
+		run("try a0.eval().size() catch 0 - 1", a)
+		c09FlakyArmed = 0
+		model = nil
+	case "fmap":
+		// a function-backed map of the run's factory (Go API NewFuncMapFactory; the declared keys are not in alphabetical
+		// order and are shared by all maps of the factory): no counterpart in the model, the predicate decides from here on
+		if !need(1) {
+			return false
+		}
+		if r.fmapFac == nil {
+			fac := value.NewFuncMapFactory[value.Int](func(k value.Int, key string) (value.Value, bool) {
+				switch key {
+				case "zeta":
+					return k, true
+				case "alpha":
+					return k * 10, true
+				case "mid":
+					return value.String("m"), true
+				}
+				return nil, false
+			}, "zeta", "alpha", "mid")
+			r.fmapFac = &fac
+		}
+		k, e2 := strconv.Atoi(w[1])
+		if e2 != nil {
+			return false
+		}
+		res, err = r.fmapFac.Create(value.Int(k)), nil
+		r.unmodelled = true
+	case "mmiss":
+		// a failed key lookup (the error message lists the available keys) and a method call (which first looks for a
+		// closure field of that name): observers
+		if !need(1) {
+			return false
+		}
+		a := A(1)
+		recv = a.h
+		run("[try a0.nosuchkey catch 0, try a0.size() catch 0 - 1].size()", a)
+		model = nil
 	default:
 		return false
 	}
@@ -1353,6 +1454,12 @@ var c09Corpus = [][]string{
 	// ~ with a list on the left removes the items it has found from a work copy, never from the operand
 	{"lit i1,i2,i3", "lit i1,i2,i3,i4", "til h0 h1", "til h0 h1", "lit i3,i1", "til h2 h0", "app h2 i9", "til h0 h3", "obs"},
 	{"num 4", "eval h0", "num 6", "til h1 h2", "til h0 h2", "app h1 i7", "til h3 h2", "obs"},
+	// a first materialisation that fails in the middle leaves nothing behind: the list is complete when it is looked at again
+	{"lit i5,i6,i7,i8,i9", "flk map h0", "flkeval h1", "size h1", "app h1 i1", "obs"},
+	{"num 6", "flk number h0", "flkeval h1", "idx h1 4", "rev h1", "app h1 i2", "obs"},
+	{"lit i1,i2,i3,i4", "flk map h0", "flk number h1", "flkeval h2", "flkeval h1", "eval h2", "obs"},
+	// maps of one function-map factory: a failed lookup on one of them changes neither it nor its siblings
+	{"fmap 1", "fmap 2", "mmiss h0", "mmiss h1", "obs", "mlit q=i1", "mrg h0 h2", "mmiss h3", "obs"},
 	// a replaced map knows only the keys of the original (the model once looked into the replacement first)
 	{"mlit -", "mlit a=i1", "rpl h0 h1", "mrg h2 h1", "put h2 a i5", "mlit a=i2,b=i3", "mlit b=i4,c=i5", "rpl h5 h6", "mlit c=i6", "mrg h7 h8", "obs"},
 	// a ListMap with spare capacity (accept): two derivations from it must not share the spare cell
@@ -1429,7 +1536,7 @@ func c09Nontrivial(r *c09Run) bool {
 	mat := false
 	for _, op := range r.ops {
 		switch strings.Fields(op)[0] {
-		case "app", "set", "rev", "ord", "ordr", "ordl", "eval", "idx", "size", "mw", "mwr", "tsa", "obs", "cmbe", "mev", "til":
+		case "app", "set", "rev", "ord", "ordr", "ordl", "eval", "idx", "size", "mw", "mwr", "tsa", "obs", "cmbe", "mev", "til", "mmiss", "flkeval":
 			mat = true
 		}
 	}
